@@ -76,6 +76,8 @@ pub open spec fn lanes_after(l0: Map<u64, LaneState>, l: Map<u64, LaneState>, ms
             // every merged lane exists, is not the voucher's own lane, and had a lower nonce; its nonce is raised, its redeemed amount kept
             &&& forall|j: int| 0 <= j < ms.len() ==> (#[trigger] ms[j]).lane != sv.lane && l0.dom().contains(ms[j].lane)
                     && l1.dom().contains(ms[j].lane) && l1[ms[j].lane].nonce >= ms[j].nonce && l1[ms[j].lane].redeemed@ == l0[ms[j].lane].redeemed@
+                    // "... a nonce higher than the last one used ... on every lane it merges": STRICTLY higher than what the lane had
+                    && l0[ms[j].lane].nonce < ms[j].nonce
             // all other lanes unchanged
             &&& forall|k: u64| k != sv.lane && (forall|j: int| 0 <= j < ms.len() ==> (#[trigger] ms[j]).lane != k) ==>
                     (l1.dom().contains(k) == l0.dom().contains(k))
@@ -99,6 +101,7 @@ pub open spec fn lanes_after(l0: Map<u64, LaneState>, l: Map<u64, LaneState>, ms
                 lanes_after(l0, l_states.view(), ms, it.index@),
                 redeemed_from_others@ == merge_sum(l0, ms, it.index@),
                 forall|j: int| 0 <= j < it.index@ ==> (#[trigger] ms[j]).lane != sv.lane,
+                forall|j: int| 0 <= j < it.index@ ==> l0.dom().contains((#[trigger] ms[j]).lane) && l0[ms[j].lane].nonce < ms[j].nonce,
                 lane_id == sv.lane,
                 lane_state.nonce == (if l0.dom().contains(sv.lane) { l0[sv.lane].nonce } else { 0 }),
                 lane_state.redeemed@ == redeemed_at(l0, sv.lane),
@@ -142,6 +145,8 @@ pub proof fn distinct_sum_eq_when_distinct(l: Map<u64, LaneState>, ms: Seq<Merge
             // every merged lane exists, is not the voucher's own lane, and had a lower nonce; its nonce is raised, its redeemed amount kept
             &&& forall|j: int| 0 <= j < ms.len() ==> (#[trigger] ms[j]).lane != sv.lane && l0.dom().contains(ms[j].lane)
                     && l1.dom().contains(ms[j].lane) && l1[ms[j].lane].nonce >= ms[j].nonce && l1[ms[j].lane].redeemed@ == l0[ms[j].lane].redeemed@
+                    // "... a nonce higher than the last one used ... on every lane it merges": STRICTLY higher than what the lane had
+                    && l0[ms[j].lane].nonce < ms[j].nonce
             // all other lanes unchanged
             &&& forall|k: u64| k != sv.lane && (forall|j: int| 0 <= j < ms.len() ==> (#[trigger] ms[j]).lane != k) ==>
                     (l1.dom().contains(k) == l0.dom().contains(k))
@@ -165,6 +170,7 @@ pub proof fn distinct_sum_eq_when_distinct(l: Map<u64, LaneState>, ms: Seq<Merge
                 lanes_after(l0, l_states.view(), ms, it.index@),
                 redeemed_from_others@ == merge_sum(l0, ms, it.index@),
                 forall|j: int| 0 <= j < it.index@ ==> (#[trigger] ms[j]).lane != sv.lane,
+                forall|j: int| 0 <= j < it.index@ ==> l0.dom().contains((#[trigger] ms[j]).lane) && l0[ms[j].lane].nonce < ms[j].nonce,
                 lane_id == sv.lane,
                 lane_state.nonce == (if l0.dom().contains(sv.lane) { l0[sv.lane].nonce } else { 0 }),
                 lane_state.redeemed@ == redeemed_at(l0, sv.lane),
